@@ -107,6 +107,8 @@ def polish_term(polish):
             return "(EBin %s %s %s)" % (BINOPS[int(t[1:])], l, r)
         if t[0] == "U":
             return "(EUn %s %s)" % (UNOPS[int(t[1:])], go())
+        if t[0] == "C":
+            return "(ECast %s %s)" % (go(), "CBare" if t[1:] == "0" else "CParam")
         return "(EParen %s)" % go()
     return go()
 
@@ -426,6 +428,108 @@ def run_ops(ctx, rows, exe, vm_sample):
     return model_only
 
 
+def run_casts(ctx, out, exe, vm_sample):
+    """Gap 'trailing cast': comparison (and control) operators whose left operand ends, along the right spine, in a cast"""
+    name = ("trailing casts: left/right operands whose right spine (binary right, unary operand, nested casts; if-else results "
+            "outside the model) ends in a cast to T / T<P> / M.T / T? (and () -> T, A | T, A & T, {T} outside the model) "
+            "under < <= > >= == ~= + .. and, with left-spine-only and explicit-parenthese controls; dense, readable and "
+            "token-based generators at spans 1, 7, unbounded: modelled printer, reference parser, darklua parser round trip")
+    rows = []
+    for line in out.splitlines():
+        p = line.split(" ")
+        if len(p) != 11 or p[0] != "cast":
+            continue
+        rows.append({"span": int(p[2]), "polish": p[3], "dense": undash(p[4]), "readable": undash(p[5]),
+                     "tokenbased": undash(p[6]), "dflag": p[7], "rflag": p[8], "tflag": p[9], "tag": p[10]})
+    lines = []
+    owner = []
+    for i, r in enumerate(rows):
+        if r["polish"] == "-":
+            continue
+        lines.append("op %d %s %s %s" % (len(owner), r["polish"], r["dense"] or "-", r["readable"] or "-"))
+        owner.append((i, "dense/readable"))
+        lines.append("op %d %s %s %s" % (len(owner), r["polish"], r["tokenbased"] or "-", r["tokenbased"] or "-"))
+        owner.append((i, "token-based"))
+    rc, res = C.sh([exe], input="\n".join(lines) + "\n", timeout=3000)
+    bad = {}
+    done = None
+    for line in res.splitlines():
+        if line.startswith("bad "):
+            _, cid, diag = (line.split(" ", 2) + [""])[:3]
+            i, which = owner[int(cid)]
+            bad.setdefault(i, []).append("%s: %s" % (which, diag.strip()))
+        elif line.startswith("done "):
+            done = int(line.split()[1])
+    if rc != 0 or done != len(lines):
+        raise C.CheckBroken("extracted C02 checker failed on casts (rc=%s):\n%s" % (rc, res[-1500:]))
+    modelled = [i for i, r in enumerate(rows) if r["polish"] != "-"]
+    pick = sorted(set(modelled[::max(1, len(modelled) // vm_sample)] + sorted(bad)[:10]))
+    vm_bad = C.run_coq_cases(ctx.prop, PREAMBLE_OPS,
+                             [(i, 'pc %s "%s" "%s"' % (polish_term(rows[i]["polish"]), rows[i]["dense"], rows[i]["readable"]))
+                              for i in pick], chunk=max(8, len(pick) // C.NPROC + 1), tag="casts")
+    vm_ids = set(cid for cid, _ in vm_bad)
+    disagree = [i for i in pick if (i in vm_ids) != any(d.startswith("dense/readable") for d in bad.get(i, []))]
+    ctx.obligation("extracted checker agrees with vm_compute inside coqc on %d sampled cast trees" % len(pick),
+                   not disagree, "disagreements at cases %r" % disagree[:5])
+    reparse_bad = [i for i, r in enumerate(rows) if any(r[f] not in ("ok", "okp") for f in ("dflag", "rflag", "tflag"))]
+    # non-trivial: the operand needed the trailing-cast parentheses (a '(' was written that is not an explicit node)
+    nt = sum(1 for r in rows if bytes.fromhex(r["dense"]).count(b"(") > r["polish"].split(",").count("P") and r["polish"] != "-"
+             or (r["polish"] == "-" and b"(" in bytes.fromhex(r["dense"])))
+    ctx.stream(name, len(rows), nt, [{"tree": r["tag"], "dense": text_of(r["dense"])} for r in rows[3:6]],
+               mismatches=len(bad), reparse_mismatches=len(reparse_bad), modelled=len(modelled), evaluated_in_coqc=len(pick))
+    model_only = []
+    for i in sorted(set(bad) | set(reparse_bad)):
+        r = rows[i]
+        diags = bad.get(i, [])
+        replay = {"stream": "trailing casts", "case": r["tag"], "tree_polish": r["polish"], "span": r["span"],
+                  "dense": text_of(r["dense"]), "readable": text_of(r["readable"]), "token_based": text_of(r["tokenbased"]),
+                  "diag": diags, "darklua_parser": [r["dflag"], r["rflag"], r["tflag"]]}
+        if i in reparse_bad or any("ORACLE" in d for d in diags):
+            if len([v for v in ctx.violations if v[1].get("stream") == "trailing casts"]) < 4:
+                ctx.violation("an expression with a trailing type cast is not read back as the same tree (reference parser: %s; "
+                              "darklua parser dense/readable/token-based: %s/%s/%s)"
+                              % ("; ".join(diags) or "ok", r["dflag"], r["rflag"], r["tflag"]), replay,
+                              key="cast:%s:%d" % (r["tag"], r["span"]))
+        else:
+            model_only.append((r, "; ".join(diags)))
+    return model_only
+
+
+def run_sources(ctx, out):
+    """parsed sources through darklua_core::process (rules: []) with each generator"""
+    name = ("parsed sources through process(): 34 final expressions (every Expression variant, type instantiation and casts "
+            "plain and nested) x 5 statement forms x 8 following statements, written with an explicit ';', generators "
+            "retain_lines, dense and readable at column spans 0, 1, 7, 80: the output must parse to the same statements")
+    rows = []
+    skipped = 0
+    for line in out.splitlines():
+        p = line.split(" ")
+        if len(p) != 8 or p[0] != "src":
+            continue
+        if p[2] == "unparsable":
+            skipped += 1
+            continue
+        rows.append({"generator": p[2], "span": int(p[3]), "source": p[4], "output": p[5], "flag": p[6], "nl": parse_nl(p[7] + ",0"),
+                     "tag": "source"})
+    bad = [r for r in rows if r["flag"] not in ("ok", "okp") or r["output"] == "FAILED"]
+    nt = sum(1 for r in rows if bytes.fromhex(r["source"]).split(b"\n")[1].startswith(b"("))
+    nlbad = [r for r in rows if r["nl"][0]]
+    ctx.stream(name, len(rows), nt, [{"source": text_of(r["source"]), "output": text_of(r["output"])} for r in rows[9:12]],
+               mismatches=len(bad), call_parentheses_starting_a_line=len(nlbad), unparsable_sources_skipped=skipped)
+    ctx.obligation("every source of the parsed-source stream is accepted by darklua's parser", skipped == 0, "skipped=%d" % skipped)
+    for r in bad[:4]:
+        src = text_of(r["source"])
+        ctx.violation("process() with generator %s (column_span %d) does not write back the same statements (%s)"
+                      % (r["generator"], r["span"], r["flag"]),
+                      {"stream": "parsed sources", "source": src, "generator": r["generator"], "column_span": r["span"],
+                       "output": text_of(r["output"]) if r["output"] != "FAILED" else "FAILED"},
+                      key="source:%s:%s:%d" % (r["source"][:80], r["generator"], r["span"]))
+    for r in nlbad[:3]:
+        ctx.violation("process() with generator %s (column_span %d): the '(' of a call starts a line" % (r["generator"], r["span"]),
+                      {"stream": "parsed sources", "source": text_of(r["source"]), "output": text_of(r["output"])},
+                      key="source-nl:%s:%s:%d" % (r["source"][:80], r["generator"], r["span"]))
+
+
 PREAMBLE_ST = """From DL Require Import Lib.Bytes Model.Lexer Model.DenseGen Model.Precedence Model.C02Check.
 Open Scope N_scope.
 Open Scope string_scope.
@@ -437,16 +541,18 @@ Definition diag_case (c : scase) : string := to_string (sdiag_bytes c).
 
 
 def run_stmts(ctx, out, exe, vm_sample):
-    name = ("statement boundaries: every ending expression (35 samples + trees whose last operand the generator wraps in "
-            "parentheses) x 7 statement forms x 8 following statements (7 starting with a parenthese): reference token "
-            "criterion for the mandatory ';' and darklua parser round trip")
+    name = ("statement boundaries: every Expression variant as the final expression (35 samples, type instantiation and casts "
+            "plain and under unary / binary / if-else, trees whose last operand the generator wraps in parentheses) x 7 "
+            "statement forms x 8 following statements (7 starting with a parenthese), dense / readable / token-based: "
+            "reference token criterion for the mandatory ';' and darklua parser round trip")
     rows = []
     for line in out.splitlines():
         p = line.split(" ")
-        if len(p) != 12 or p[0] != "st":
+        if len(p) != 14 or p[0] != "st":
             continue
         rows.append({"span": int(p[2]), "exprend": p[3], "a": undash(p[4]), "b": undash(p[5]), "dense": undash(p[6]),
-                     "readable": undash(p[7]), "dflag": p[8], "rflag": p[9], "tag": p[10], "nl": parse_nl(p[11])})
+                     "readable": undash(p[7]), "dflag": p[8], "rflag": p[9], "tag": p[10], "nl": parse_nl(p[11]),
+                     "tokenbased": undash(p[12]), "tflag": p[13]})
     lines = ["st %d %s %s %s %s %s" % (i, r["exprend"], r["a"] or "-", r["b"] or "-", r["dense"] or "-", r["readable"] or "-")
              for i, r in enumerate(rows)]
     rc, res = C.sh([exe], input="\n".join(lines) + "\n", timeout=3000)
@@ -472,7 +578,8 @@ def run_stmts(ctx, out, exe, vm_sample):
     ctx.obligation("extracted checker agrees with vm_compute inside coqc on %d sampled statement pairs" % len(pick),
                    not disagree, "disagreements at cases %r" % disagree[:5])
     nt = sum(1 for r in rows if bytes.fromhex(r["b"]).startswith(b"(") and r["exprend"] == "1")
-    reparse_bad = [i for i, r in enumerate(rows) if r["dflag"] not in ("ok", "okp") or r["rflag"] not in ("ok", "okp")]
+    reparse_bad = [i for i, r in enumerate(rows) if r["dflag"] not in ("ok", "okp") or r["rflag"] not in ("ok", "okp")
+                   or r["tflag"] not in ("ok", "okp")]
     nl_bad = newline_violations(ctx, name, rows, lambda r: {"pair": r["tag"], "dense": text_of(r["dense"]),
                                                            "readable": text_of(r["readable"])})
     ctx.stream(name, len(rows), nt, [{"pair": r["tag"], "dense": text_of(r["dense"])} for r in rows[40:43]],
@@ -489,7 +596,8 @@ def run_stmts(ctx, out, exe, vm_sample):
                       "(the text means one call chain) or the block is not read back as the same two statements",
                       {"pair": r["tag"], "span": r["span"], "statement_a": text_of(r["a"]), "statement_b": text_of(r["b"]),
                        "dense": text_of(r["dense"]), "readable": text_of(r["readable"]),
-                       "reference_criterion": dict(bad).get(i, "ok"), "darklua_parser": [r["dflag"], r["rflag"]]}, key=key)
+                       "token_based": text_of(r["tokenbased"]), "reference_criterion": dict(bad).get(i, "ok"),
+                       "darklua_parser": [r["dflag"], r["rflag"], r["tflag"]]}, key=key)
 
 
 PREAMBLE_STR = """From DL Require Import Lib.Bytes Model.Lexer Model.DenseGen Model.Precedence Model.C02Check.
@@ -576,6 +684,8 @@ def run(ctx):
     ctx.obligation("the unary-operand parenthesis rule read back from both generators' output equals "
                    "!precedes_unary_expression for all 16 x 3 operator pairs", prec["unary_operand_check"] == [0],
                    "mismatches=%r" % prec["unary_operand_check"])
+    ctx.obligation("casts: M.T is treated as T by left_needs_parentheses, T? is not, and right_needs_parentheses never "
+                   "wraps a cast (all 16 operators)", prec["castcheck"] == [0], "mismatches=%r" % prec["castcheck"])
     ctx.obligation("no atom kind (%d samples) is ever parenthesised by left/right_needs_parentheses" % prec["atomcheck"][0],
                    prec["atomcheck"][1] == 0, "parenthesised=%d" % prec["atomcheck"][1])
     T.write_if_changed(T.GENERATED_V, T.coq_source(
@@ -622,6 +732,16 @@ def run(ctx):
                        "diag": diag, "mismatches": len(ops_model_only)}, found_input=False)
 
     run_stmts(ctx, C.harness("dl-c02", ["stmts"], timeout=1800), exe, 60 if quick else 300)
+
+    casts_model_only = run_casts(ctx, C.harness("dl-c02", ["casts"], timeout=1800), exe, 60 if quick else 300)
+    if casts_model_only and not ctx.violations:
+        r, diag = casts_model_only[0]
+        ctx.violation("correspondence broken: the generators' parentheses around a trailing cast differ from "
+                      "Model/Precedence.tokens_of_expr on the dumped predicates; every text is still read back as the same tree",
+                      {"case": r["tag"], "tree_polish": r["polish"], "dense": text_of(r["dense"]), "readable": text_of(r["readable"]),
+                       "token_based": text_of(r["tokenbased"]), "diag": diag, "mismatches": len(casts_model_only)},
+                      found_input=False)
+    run_sources(ctx, C.harness("dl-c02", ["sources"], timeout=1800))
 
     rows = parse_cases(C.harness("dl-c02", ["calls"], timeout=1800))
     model_only += run_stream(ctx, "calls at small spans: zero- and one-argument calls (function and method form, chains, parenthesised "
